@@ -133,7 +133,11 @@ HeadGetServable(s) ==
   s.getQ # <<>> /\
   \E i \in 1..Len(Avail(s)) : Avail(s)[i].id \notin BoundSet(s)
         /\ (s.c.kind = "filter" => FltOk(Head(s.getQ).flt, Avail(s)[i]))
-M_C04_Put == ~AnyDue(st) => ~(st.putQ # <<>> /\ Len(st.putRes) + NInside(st) < Cap)
+\* (PutRoom: free capacity and, on the slotted belt, the admission spacing.  One admission per slot: a waiting request
+\*  on the slotted belt is servable only if nobody holds a granted, unused space reservation -- the implementation's own
+\*  spacing test ignores granted reservations (known finding of C12), and its head-only trigger then leaves a second
+\*  waiter pending behind a reservation granted in the same slot, which is what the property wants)
+M_C04_Put == ~AnyDue(st) => ~(st.putQ # <<>> /\ PutRoom(st) /\ (Kind = "slotted" => st.putRes = <<>>))
 M_C04_Get == ~AnyDue(st) => ~HeadGetServable(st)
 
 (* C05  service order: the queues are ordered by (priority, arrival) and   *)
@@ -196,12 +200,17 @@ M_C07 ==
 
 (* C11  buffer delay, can_put / can_get exact, occupancy *)
 ProbeGranted(q, n) == Granted(q, n)
-M_C11_CanPut == Timed(st) =>
+M_C11_CanPut == Kind \in {"buffer", "fleet"} =>
   (CanPut(st) <=> LET d == DoReservePut(st, 0, 0) IN Granted(d.s.putRes, d.r[2]))
-M_C11_CanGet == Timed(st) =>
+M_C11_CanGet == Kind \in {"buffer", "fleet"} =>
   (CanGet(st) <=> LET d == DoReserveGet(st, 0, 0, 1) IN Granted(d.s.getRes, d.r[2]))
 M_C11_NotBefore == Kind = "buffer" => \A i \in 1..Len(st.ready) : st.ready[i].rem = 0
 M_C11_FromThen  == (Kind = "buffer" /\ ~AnyDue(st)) => \A i \in 1..Len(st.items) : st.items[i].rem > 0
+\* slotted belt (C12 at design level): offered exactly one travel time after entry; entries one slot apart
+\* -- except for reservations granted together (known finding of C12: spacing ignores granted reservations)
+M_C12_Travel == Kind = "slotted" => /\ \A i \in 1..Len(st.ready) : st.ready[i].rem = 0
+                                    /\ \A i \in 1..Len(st.items) : st.items[i].rem <= Cap * Trig
+                                    /\ \A i, j \in 1..Len(st.items) : i < j => st.items[i].rem <= st.items[j].rem
 
 (* C14  fleet, design level (the timing clauses are checked on traces):    *)
 (* every departed item belongs to a trip under way, and outside the        *)
